@@ -136,9 +136,11 @@ def run_strfunc(ev, fnode, env):
             # a regex constant of the source applied to a string constant (table agreement)
             import re as _re
             from ..fold import Rx
-            args = [e(a, env) for a in n.args]
-            if src(n.func.value) == 're' and args and isinstance(args[0], str):
-                flags = args[3] if n.func.attr == 'sub' and len(args) > 3 else args[2] if n.func.attr != 'sub' and len(args) > 2 else 0
+            nflag = 4 if n.func.attr == 'sub' else 2
+            is_re = src(n.func.value) == 're'
+            args = [e(a, env) for a in (n.args[:nflag] if is_re else n.args)]
+            if is_re and args and isinstance(args[0], str):
+                flags = ev.folder._flags(n.args[nflag], ev.mod) if len(n.args) > nflag else 0
                 for k in n.keywords:
                     if k.arg == 'flags':
                         flags = ev.folder._flags(k.value, ev.mod)
